@@ -1,6 +1,7 @@
 // C17 harness: evaluates the four real predicates on cases
 //   t n s  kx ky kz qx qy qz  (n times)      t = o (4 points) | i (5 points)
-// coordinate = 1 + k 2^-s + q 2^-52 (exact doubles in [1,2)); prints, per case,
+// coordinate = 1 + k 2^-s + q 2^-52 (exact doubles in [1,2)); s > 52: the lattice unit is s ulps (not a power of two),
+// coordinate = 1 + (k s + q) 2^-52.  Prints, per case,
 // "exact adaptive" signs.
 #include "ExactGeometricTests.hpp"
 
@@ -14,15 +15,17 @@ int main(int argc, char **argv) {
     return 2;
   FILE *f = fopen(argv[1], "r");
   char t;
-  int n, sh;
-  while (fscanf(f, " %c %d %d", &t, &n, &sh) == 3) {
+  int n;
+  long long sh;
+  while (fscanf(f, " %c %d %lld", &t, &n, &sh) == 3) {
     CoordinateVector<> p[5];
     for (int i = 0; i < n; ++i) {
       long k[3], q[3];
       if (fscanf(f, "%ld %ld %ld %ld %ld %ld", &k[0], &k[1], &k[2], &q[0], &q[1], &q[2]) != 6)
         return 3;
       for (int j = 0; j < 3; ++j)
-        p[i][j] = 1. + std::ldexp((double)k[j], -sh) + std::ldexp((double)q[j], -52);
+        p[i][j] = (sh <= 52) ? 1. + std::ldexp((double)k[j], -(int)sh) + std::ldexp((double)q[j], -52)
+                             : 1. + std::ldexp((double)((long long)k[j] * sh + q[j]), -52);
     }
     int e, a;
     if (t == 'o') {
